@@ -826,7 +826,9 @@ Section Stmt.
   (* execDirectFunction *)
   Definition exec_direct (k : nat) (st : state) (f : name) (args : list val) : res val :=
     let! (fv, s1) := vm_find st f in
-    let s2 := push_frame s1 2 None in
+    (* the frame belongs to the module the name was found in: the predefined names live in the native-code module
+       (frame kind 4 = a function frame of that module; it has no source lines) *)
+    let s2 := push_frame s1 (if is_global f then 4 else 2) None in
     match fv with
     | VFunc fid => let! (v, s3) := call_fun k s2 fid args in Ok v (pop_frame s3)
     | VNative nk =>
@@ -854,18 +856,18 @@ Section Stmt.
       | _ => Crash UNMODELLED
       end
     | VList l =>
-      let s2 := push_frame st 2 (Some root) in
+      let s2 := push_frame st 4 (Some root) in
       match hget s2 l with
       | Some (CList items) => let! (v, s3) := list_method k s2 l items m args in Ok v (pop_frame s3)
       | _ => Crash UNMODELLED
       end
     | VDict l =>
-      let s2 := push_frame st 2 (Some root) in
+      let s2 := push_frame st 4 (Some root) in
       match hget s2 l with
       | Some (CDict kvs) => let! (v, s3) := dict_method k s2 l kvs m args in Ok v (pop_frame s3)
       | _ => Crash UNMODELLED
       end
-    | VNull | VBool _ | VFunc _ | VClass _ | VExc _ | VNative _ => Er (ERun E_NOMETHOD) (push_frame st 2 (Some root))
+    | VNull | VBool _ | VFunc _ | VClass _ | VExc _ | VNative _ => Er (ERun E_NOMETHOD) (push_frame st 4 (Some root))
     | _ => Crash UNMODELLED
     end.
 End Stmt.
